@@ -98,7 +98,7 @@ def validate_traces(trace_file: str, module: str, invariants: list[str], workdir
         buckets[i].append(ln)
         sizes[i] += len(ln)
     cfg = os.path.join(workdir, f"{module}_run.cfg")
-    write_cfg(cfg, invariants=list(invariants) + ["Accepted"])
+    write_cfg(cfg, invariants=list(dict.fromkeys(list(invariants) + ["Accepted"])))
     jobs = []
     for i, b in enumerate(buckets):
         sd = os.path.join(workdir, f"shard{i}")
